@@ -218,6 +218,134 @@ theorem chan_eos_idempotent (s : Stream) (r : ChanRd) (h : Good s r.dec) (hrest 
   · refine ⟨{ dec := r.dec, frame := [], consumed := 0 }, by simp [ChanRd.fill, hc, hrf], hrest, by simp [ChanRd.pcmFrames], h⟩
   · rw [hrest] at hr; cases hr
 
+/-! #### the channel reader delivers every channel exactly once -/
+
+/-- frames are rectangular: every channel has the frame's length -/
+def Rect (f : FrameInfo) : Prop := ∀ c ∈ f.chans, c.length = f.len
+
+/-- what channel `c` has still to deliver: the unconsumed part of the current frame, then the unread frames -/
+def chanRemaining (c : Nat) (r : ChanRd) : List Int :=
+  (r.frame.getD c []).drop r.consumed ++ r.dec.rest.flatMap (fun f => f.chans.getD c [])
+
+inductive ChanOp | fill | consume (k : Nat)
+
+/-- one operation; data leaves the reader through `consume` (what channel `c` loses is returned) -/
+def chanStep (s : Stream) (c : Nat) (r : ChanRd) : ChanOp → Res (List Int × ChanRd)
+  | .fill => match r.fill s with
+             | .error e => .error e
+             | .ok (_, r') => .ok ([], r')
+  | .consume k => .ok (((r.frame.getD c []).drop r.consumed).take k, r.consume k)
+
+/-- the current frame is rectangular (all channels as long as the first) -/
+def FrameRect (r : ChanRd) : Prop := ∀ ch ∈ r.frame, ch.length = r.pcmFrames
+
+theorem getD_len_le (frame : List (List Int)) (n : Nat) (h : ∀ ch ∈ frame, ch.length = n) (c : Nat) :
+    (frame.getD c []).length ≤ n := by
+  rw [List.getD_eq_getElem?_getD]
+  cases hc : frame[c]? with
+  | none => simp
+  | some x =>
+    have := List.mem_of_getElem? hc
+    simp [h x this]
+
+theorem headD_map_drop (frame : List (List Int)) (k : Nat) :
+    ((frame.map (·.drop k)).headD []).length = (frame.headD []).length - k := by
+  cases frame with
+  | nil => simp
+  | cons x xs => simp
+
+theorem chanFill_exact (s : Stream) (r : ChanRd) (h : Good s r.dec) (hr : FrameRect r)
+    (hrest : ∀ f ∈ r.dec.rest, Rect f) :
+    ∃ b r', r.fill s = .ok (b, r') ∧ Good s r'.dec ∧ FrameRect r' ∧ (∀ f ∈ r'.dec.rest, Rect f)
+      ∧ (∀ c, chanRemaining c r' = chanRemaining c r)
+      ∧ (b.headD []).length = r'.pcmFrames - r'.consumed
+      ∧ (∀ f ∈ r'.dec.rest, f ∈ r.dec.rest)
+      ∧ (r'.frame = r.frame ∨ r'.frame = [] ∨ ∃ f ∈ r.dec.rest, r'.frame = f.chans)
+      ∧ (r'.pcmFrames - r'.consumed = 0 → r'.dec.rest = []) := by
+  unfold ChanRd.fill
+  by_cases hc : r.consumed < r.pcmFrames
+  · rw [if_pos hc]
+    refine ⟨_, r, rfl, h, hr, hrest, fun _ => rfl, ?_, fun f hf => hf, Or.inl rfl, fun h0 => by omega⟩
+    simp only [headD_map_drop, ChanRd.pcmFrames]
+  · rw [if_neg hc]
+    have hdone : ∀ c, (r.frame.getD c []).drop r.consumed = [] := by
+      intro c
+      apply List.drop_eq_nil_of_le
+      have := getD_len_le r.frame r.pcmFrames hr c
+      omega
+    rcases readFrame_good s r.dec h with ⟨hr0, hrf⟩ | ⟨f, fs, hr0, hrf, hg⟩
+    · refine ⟨_, { dec := r.dec, frame := [], consumed := 0 }, by rw [hrf], h, ?_, hrest, ?_, ?_, fun f hf => hf, Or.inr (Or.inl rfl), fun _ => hr0⟩
+      · intro ch hch; simp at hch
+      · intro c; unfold chanRemaining; dsimp only; rw [hdone c, hr0]; simp
+      · simp [ChanRd.pcmFrames]
+        cases s.ch <;> simp [List.replicate_succ]
+    · have hf := hrest f (by rw [hr0]; simp)
+      have hfpos : 0 < f.len := h.1 f (by rw [hr0]; simp)
+      refine ⟨_, { dec := { rest := fs, cur := r.dec.cur + f.len }, frame := f.chans, consumed := 0 }, by rw [hrf], hg, ?_, ?_, ?_, ?_, ?_,
+        Or.inr (Or.inr ⟨f, by rw [hr0]; simp, rfl⟩), ?_⟩
+      · intro ch hch
+        have := hf ch hch
+        simp only [ChanRd.pcmFrames]
+        rw [this]; rfl
+      · intro g hg'; exact hrest g (by rw [hr0]; simp [hg'])
+      · intro c; unfold chanRemaining; dsimp only; rw [hdone c, hr0]; simp
+      · simp [ChanRd.pcmFrames]
+      · intro g hg'; rw [hr0]; simp [hg']
+      · intro h0
+        simp only [ChanRd.pcmFrames, Nat.sub_zero] at h0
+        have : f.len = 0 := h0
+        omega
+
+/-- **one step of the channel reader**: never an error on a valid stream; for EVERY channel, what left the reader
+    followed by what remains is what remained before -/
+theorem chanStep_exact (s : Stream) (c : Nat) (r : ChanRd) (op : ChanOp) (h : Good s r.dec) (hr : FrameRect r)
+    (hrest : ∀ f ∈ r.dec.rest, Rect f) :
+    ∃ out r', chanStep s c r op = .ok (out, r') ∧ Good s r'.dec ∧ FrameRect r' ∧ (∀ f ∈ r'.dec.rest, Rect f)
+      ∧ out ++ chanRemaining c r' = chanRemaining c r := by
+  cases op with
+  | fill =>
+    obtain ⟨b, r1, h1, hg, hr1, hrest1, hrem, _⟩ := chanFill_exact s r h hr hrest
+    exact ⟨[], r1, by simp [chanStep, h1], hg, hr1, hrest1, by simpa using hrem c⟩
+  | consume k =>
+    refine ⟨_, r.consume k, rfl, h, ?_, hrest, ?_⟩
+    · intro ch hch; exact hr ch hch
+    · simp only [chanRemaining, ChanRd.consume, ← List.append_assoc]
+      congr 1
+      rw [← List.drop_drop, List.take_append_drop]
+
+def chanRun (s : Stream) (c : Nat) : ChanRd → List ChanOp → Res (List Int × ChanRd)
+  | r, [] => .ok ([], r)
+  | r, op :: ops =>
+    match chanStep s c r op with
+    | .error e => .error e
+    | .ok (o1, r1) =>
+      match chanRun s c r1 ops with
+      | .error e => .error e
+      | .ok (o2, r2) => .ok (o1 ++ o2, r2)
+
+/-- **chan_reader_exactly_once** - for EVERY history of `fill_buf`/`consume` calls on a valid stream of rectangular
+    frames and EVERY channel: no error, and the samples of that channel that left the reader, followed by what it still
+    holds, are the channel's whole decoded stream (the de-interleaved samples): nothing lost, duplicated or reordered. -/
+theorem chan_reader_exactly_once (s : Stream) (c : Nat) (r : ChanRd) (ops : List ChanOp) (h : Good s r.dec) (hr : FrameRect r)
+    (hrest : ∀ f ∈ r.dec.rest, Rect f) :
+    ∃ out r', chanRun s c r ops = .ok (out, r') ∧ out ++ chanRemaining c r' = chanRemaining c r := by
+  induction ops generalizing r with
+  | nil => exact ⟨[], r, rfl, by simp⟩
+  | cons op ops ih =>
+    obtain ⟨o1, r1, h1, hg1, hr1, hrest1, he1⟩ := chanStep_exact s c r op h hr hrest
+    obtain ⟨o2, r2, h2, he2⟩ := ih r1 hg1 hr1 hrest1
+    refine ⟨o1 ++ o2, r2, by simp [chanRun, h1, h2], ?_⟩
+    rw [List.append_assoc, he2, he1]
+
+/-- a freshly opened channel reader: what channel `c` delivers is a prefix of that channel of the whole stream -/
+theorem fresh_chan_reader_prefix (s : Stream) (c : Nat) (ops : List ChanOp)
+    (h : Good s { rest := s.frames, cur := 0 }) (hrect : ∀ f ∈ s.frames, Rect f) :
+    ∃ out r', chanRun s c { dec := { rest := s.frames, cur := 0 }, frame := [], consumed := 0 } ops = .ok (out, r')
+      ∧ out ++ chanRemaining c r' = s.frames.flatMap (fun f => f.chans.getD c []) := by
+  obtain ⟨out, r', h1, h2⟩ := chan_reader_exactly_once s c { dec := { rest := s.frames, cur := 0 }, frame := [], consumed := 0 } ops h
+    (by intro ch hch; simp at hch) hrect
+  exact ⟨out, r', h1, by simpa [chanRemaining] using h2⟩
+
 /-- non-vacuity: a two-frame stream with a declared total of 20 = 16 + 4 is `Good` -/
 example : Good { ch := 1, bps := 16, total := some 20, table := none,
                  frames := [{ off := 0, chans := [List.replicate 16 1] }, { off := 30, chans := [List.replicate 4 2] }] }
